@@ -36,7 +36,7 @@ CLAIMS = {
             'Trusted: Lean kernel (axioms propext, Classical.choice, Quot.sound); hand model of compact.rs / encode.rs tied by unit-level and end-to-end correspondence; Spec.Bitstream as my reading of ISO 7.4.',
             'Lean 4 symbolic proof (bit-level refinement + induction over digit/pair/byte groups) + tier K tables + differential correspondence'),
     "C07": ('proof',
-            'Lean 4: LOG is the orbit of alpha modulo 0x11D, ANTILOG its inverse, each of the 13 generator literals = prod (x - alpha^i) (decide +kernel on regenerated tables); C07_table_mul — the log-domain product LOG[(e+ANTILOG[x])%255] is the field product; C07_remainder — for EVERY block content (leading / interior zeros included) the model of polynomials::division returns the schoolbook remainder of data(x)x^ec modulo the generator over table-free GF(256); C07_syndromes — hence data ++ ec vanishes at alpha^0..alpha^(ec-1); C07_emitted — for every (version, level), every data buffer and every block b of the Table 9 layout, structure() stores at sequence index data_codewords + j*blocks + b the j-th coefficient of the true remainder of that block (so the EC codewords EMITTED, not only division's return value, are right; a seeded change in the calling loop had shown the difference). Correspondence through the hooks: structure() on arbitrary data buffers and built symbols of every layout read back by the reference decoder; real division on unit vectors at every position, zero-heavy and random blocks for every (generator, block length) in use, compared with table-free schoolbook division in Lean.',
+            'Lean 4: LOG is the orbit of alpha modulo 0x11D, ANTILOG its inverse, each of the 13 generator literals = prod (x - alpha^i) (decide +kernel on regenerated tables); C07_table_mul — the log-domain product LOG[(e+ANTILOG[x])%255] is the field product; C07_remainder — for EVERY block content (leading / interior zeros included) the model of polynomials::division returns the schoolbook remainder of data(x)x^ec modulo the generator over table-free GF(256); C07_syndromes — hence data ++ ec vanishes at alpha^0..alpha^(ec-1); C07_emitted — for every (version, level), every data buffer and every block b of the Table 9 layout, structure() stores at sequence index data_codewords + j*blocks + b the j-th coefficient of the true remainder of that block (so the EC codewords EMITTED, not only the return value of division, are right; a seeded change in the calling loop had shown the difference). Correspondence through the hooks: structure() on arbitrary data buffers and built symbols of every layout read back by the reference decoder; real division on unit vectors at every position, zero-heavy and random blocks for every (generator, block length) in use, compared with table-free schoolbook division in Lean.',
             'Trusted: Lean kernel (+ propext, Classical.choice, Quot.sound); translator; hand model of division tied by unit-level correspondence.',
             'Lean 4 symbolic algebra (field laws, loop invariant) + decide +kernel on regenerated GF tables/generators + differential unit check'),
     "C08": ("proof",
